@@ -16,9 +16,25 @@ Scenarios
             candidate being visited is removed
   shrink    between the uncached lookup's check of how many arities a registry holds and its fetch of that arity's
             table, the last registration of the arity is removed (what a mutator thread can do at that point; injected
-            through the lookup object's extendors table, which is consulted in between)"""
+            through the lookup object's extendors table, which is consulted in between)
+  inmut     the dual schedule: a MUTATOR interrupted by lookups.  `inmut <flavour> <placement> <mutator> <how> [<stride>
+            <offset>]`.  The registry stores its data in instrumented versions of the documented storage types
+            (`_sequenceType`, `_mappingType`, `_providedType`, `_leafSequenceType` + `_addValueToLeaf` /
+            `_removeValueFromLeaf`; what a persistent registry does), so every constructor call and every access the
+            mutator makes is a point at which other Python code can run.  The points of one mutator call are counted in
+            a dry run; then, for every point k (quick tier: every <stride>-th), a fresh, identically populated registry
+            runs the mutator and at point k an observer performs every kind of lookup — re-entrantly (`reenter`) or in
+            a second thread to which the mutator thread is forced to yield exactly there (`thread`) — on the registry
+            itself (`same`), on registries one / two levels below it (`below1`, `below2`) or on a verifying registry
+            below an invalidating one (`mixed`).  Judged against a ledger of what the scenario registered, never
+            against the library: an answer seen inside an elementary mutator is the one before or the one after it
+            (inside `rebuild()`, which takes everything out and puts it back one registration at a time: the one of a
+            registry holding part of the registrations); once the mutator has RETURNED every lookup answers what the
+            ledger says, twice (nothing computed inside the mutator survives in a cache); and a following mutation is
+            still seen by every registry.  Answers `ok points=<P> runs=<n> lookups=<n> partial=<n>` (statistics)."""
 import gc
 import sys
+import threading
 
 
 def run(lines, out, args):
@@ -90,13 +106,304 @@ def run(lines, out, args):
             return (fac,) if fac else ()
         return fac() if fac else None
 
+    # ------------------------------------------------------------------ inmut: a mutator interrupted by lookups
+    IPA = InterfaceClass("IPA", (Interface,), __module__="zi.gen")
+    IPB = InterfaceClass("IPB", (Interface,), __module__="zi.gen")
+    IPC = InterfaceClass("IPC", (Interface,), __module__="zi.gen")
+    PROVIDED = (IPA, IPB, IPC)
+
+    def mkfac(tag):
+        def fac(*a):
+            return tag
+        fac.__name__ = tag
+        return fac
+    FAC = {t: mkfac(t) for t in ("fA", "fA2", "fB", "fB2", "fBn", "fC", "sA", "sB1", "sB2", "sB3", "sC")}
+
+    class Pt:
+        """the points of a mutator at which other Python code can run (calls into the storage objects)"""
+        armed = False
+        count = 0
+        at = None
+        action = None
+
+    def point():
+        if Pt.armed:
+            Pt.count += 1
+            if Pt.count == Pt.at:
+                Pt.armed = False              # the observer's own accesses to the storage are not points
+                Pt.action()
+
+    class HookMap(dict):                       # reads: the point is before the access; writes: after it
+        def __init__(self, *a):
+            point()
+            dict.__init__(self, *a)
+
+        def get(self, k, d=None):
+            point()
+            return dict.get(self, k, d)
+
+        def __getitem__(self, k):
+            point()
+            return dict.__getitem__(self, k)
+
+        def __setitem__(self, k, v):
+            dict.__setitem__(self, k, v)
+            point()
+
+        def __delitem__(self, k):
+            dict.__delitem__(self, k)
+            point()
+
+    class HookProvided(HookMap):
+        pass
+
+    class HookSeq(list):
+        def __init__(self, *a):
+            point()
+            list.__init__(self, *a)
+
+        def append(self, x):
+            list.append(self, x)
+            point()
+
+        def __getitem__(self, i):
+            point()
+            return list.__getitem__(self, i)
+
+        def __delitem__(self, i):
+            list.__delitem__(self, i)
+            point()
+
+    class HookLeaf(tuple):
+        def __new__(cls, it=()):
+            point()
+            return tuple.__new__(cls, it)
+
+    def hooked(base_reg):
+        class HookReg(base_reg):
+            _sequenceType = HookSeq
+            _mappingType = HookMap
+            _providedType = HookProvided
+            _leafSequenceType = HookLeaf
+
+            def _addValueToLeaf(self, existing, new_item):
+                return self._leafSequenceType(tuple(existing or ()) + (new_item,))
+
+            def _removeValueFromLeaf(self, existing, to_remove):
+                return self._leafSequenceType([v for v in existing if v != to_remove])
+        return HookReg
+    HOOKED = {"push": hooked(A.AdapterRegistry), "verifying": hooked(A.VerifyingAdapterRegistry)}
+
+    class Ledger:
+        """what the scenario registered: the independent source of expected answers"""
+
+        def __init__(self, ad=None, su=None):
+            self.ad = dict(ad or {})            # (provided, name) -> factory
+            self.su = {k: list(v) for k, v in (su or {}).items()}     # provided -> [subscriber]
+
+        def copy(self):
+            return Ledger(self.ad, self.su)
+
+        def expect(self, ep, prov, name):
+            if ep in ("lookup", "lookup1"):
+                return self.ad.get((prov, name))
+            if ep == "lookupAll":
+                return tuple(sorted(((n, f) for (p, n), f in self.ad.items() if p is prov), key=lambda x: x[0]))
+            if ep == "subscriptions":
+                return tuple(self.su.get(prov, ()))
+            f = self.ad.get((prov, name))
+            return f() if f else None
+
+        def parts(self, prov):
+            """the ledgers of a registry that holds only part of what this one holds for `prov`"""
+            keys = [k for k in self.ad if k[0] is prov]
+            subs = self.su.get(prov, [])
+            out = []
+            for mask in range(1 << len(keys)):
+                ad = {k: self.ad[k] for i, k in enumerate(keys) if mask >> i & 1}
+                for n in range(len(subs) + 1):
+                    out.append(Ledger(ad, {prov: subs[:n]}))
+            return out
+
+    EPS_ALL = ("lookup", "lookup1", "lookupAll", "subscriptions", "queryAdapter", "adapter_hook", "queryMultiAdapter")
+    KEYS = [(e, p, n) for e in EPS_ALL for p in PROVIDED for n in (("", "n") if e in ("lookup", "queryAdapter") else ("",))]
+
+    def ask_key(reg, key, ob):
+        e, p, n = key
+        if e == "lookup":
+            return reg.lookup((IR,), p, n)
+        if e == "lookup1":
+            return reg.lookup1(IR, p, n)
+        if e == "lookupAll":
+            return tuple(sorted(reg.lookupAll((IR,), p), key=lambda x: x[0]))
+        if e == "subscriptions":
+            return tuple(reg.subscriptions((IR,), p))
+        if e == "queryAdapter":
+            return reg.queryAdapter(ob, p, n)
+        if e == "adapter_hook":
+            return reg.adapter_hook(p, ob, n)
+        return reg.queryMultiAdapter((ob,), p, n)
+
+    def show(x):
+        if isinstance(x, tuple):
+            return "(%s)" % ", ".join(show(y) for y in x)
+        return getattr(x, "__name__", None) or repr(x)
+
+    def inmut_setup(flavour, placement):
+        """-> (the registry that is mutated, the registries that are queried, the ledger)"""
+        plain = A.VerifyingAdapterRegistry if flavour == "verifying" else A.AdapterRegistry
+        R = HOOKED[flavour]()
+        led = Ledger()
+        for prov, name, tag in ((IPA, "", "fA"), (IPB, "", "fB"), (IPB, "n", "fBn")):
+            R.register((IR,), prov, name, FAC[tag])
+            led.ad[(prov, name)] = FAC[tag]
+        for prov, tag in ((IPB, "sB1"), (IPB, "sB2"), (IPA, "sA")):
+            R.subscribe((IR,), prov, FAC[tag])
+            led.su.setdefault(prov, []).append(FAC[tag])
+        if placement == "same":
+            Q = [R]
+        elif placement == "below1":
+            Q = [plain((R,))]
+        elif placement == "below2":
+            mid = plain((R,))
+            Q = [mid, plain((mid,))]
+        elif placement == "mixed":
+            Q = [A.VerifyingAdapterRegistry((R,)), A.VerifyingAdapterRegistry((A.AdapterRegistry((R,)),))]
+        else:
+            raise KeyError(placement)
+        return R, Q, led
+
+    def inmut_mutator(name):
+        """-> (the mutation, its effect on the ledger)"""
+        def ad(prov, nm, tag):
+            return lambda led: led.ad.__setitem__((prov, nm), FAC[tag])
+
+        def unad(prov, nm):
+            return lambda led: led.ad.pop((prov, nm))
+        return {
+            "register": (lambda R: R.register((IR,), IPC, "", FAC["fC"]), ad(IPC, "", "fC")),
+            "replace": (lambda R: R.register((IR,), IPB, "", FAC["fB2"]), ad(IPB, "", "fB2")),
+            "unregister": (lambda R: R.unregister((IR,), IPB, ""), unad(IPB, "")),
+            "unregister-last": (lambda R: R.unregister((IR,), IPA, ""), unad(IPA, "")),
+            "subscribe": (lambda R: R.subscribe((IR,), IPB, FAC["sB3"]), lambda led: led.su[IPB].append(FAC["sB3"])),
+            "subscribe-new": (lambda R: R.subscribe((IR,), IPC, FAC["sC"]), lambda led: led.su.setdefault(IPC, []).append(FAC["sC"])),
+            "unsubscribe": (lambda R: R.unsubscribe((IR,), IPB, FAC["sB1"]), lambda led: led.su[IPB].remove(FAC["sB1"])),
+            "unsubscribe-last": (lambda R: R.unsubscribe((IR,), IPA, FAC["sA"]), lambda led: led.su.pop(IPA)),
+            "rebuild": (lambda R: R.rebuild(), lambda led: None),
+        }[name]
+
+    def inmut(flavour, placement, mutator, how, stride, offset):
+        mutate, effect = inmut_mutator(mutator)
+        ob = Ob()
+        stats = dict(points=0, runs=0, lookups=0, partial=0)
+
+        def one(k):
+            """run the mutator on a fresh registry, the observer at point k (None: count the points); -> failure or None"""
+            R, Q, pre = inmut_setup(flavour, placement)
+            post = pre.copy()
+            effect(post)
+            during, errors, fired = [], [], []
+
+            def observe():
+                fired.append(1)
+                try:
+                    for q in Q:
+                        for key in KEYS:
+                            during.append((q, key, ask_key(q, key, ob)))
+                except Exception as e:  # noqa
+                    errors.append("%s: %s" % (type(e).__name__, str(e)[:120]))
+            for q in Q:                                    # warm caches: the answers of the state before the mutator
+                for key in KEYS:
+                    ask_key(q, key, ob)
+            thread = None
+            if how == "thread" and k is not None:
+                go, done = threading.Event(), threading.Event()
+
+                def looker():
+                    if go.wait(30) and fired:
+                        observe()
+                    done.set()
+                thread = threading.Thread(target=looker)
+                thread.start()
+
+                def action():
+                    fired.append(1)
+                    go.set()
+                    if not done.wait(30):
+                        errors.append("the lookup thread did not finish")
+            else:
+                action = observe
+            Pt.count, Pt.at, Pt.action, Pt.armed = 0, k, action, True
+            try:
+                mutate(R)
+            finally:
+                Pt.armed = False
+                if thread is not None:
+                    go.set()
+                    thread.join(30)
+            if k is None:
+                return None
+            where = "%s point %d of %s(), lookups %s" % (how, k, mutator, "on the same registry" if placement == "same" else "on registries below (%s)" % placement)
+            if errors:
+                return "a lookup made at %s raised %s" % (where, errors[0])
+            if not fired:
+                return "harness: point %d of %s() was never reached" % (k, mutator)
+            stats["runs"] += 1
+            stats["lookups"] += len(during)
+            for q, key, a in during:                       # (i) inside the mutator: the answer before or after it
+                want = (pre.expect(*key), post.expect(*key))
+                if a in want:
+                    continue
+                if mutator == "rebuild" and any(a == part.expect(*key) for part in pre.parts(key[1])):
+                    stats["partial"] += 1
+                    continue
+                return "%s(%s%s) at %s answered %s, neither the answer before (%s) nor after (%s) the mutation" % (
+                    key[0], key[1].__name__, key[2] and ", %r" % key[2], where, show(a), show(want[0]), show(want[1]))
+            regs = sorted(((p.__name__, n, f.__name__) for r, p, n, f in R.allRegistrations()))
+            subs = sorted(((p.__name__, f.__name__) for r, p, f in R.allSubscriptions()))
+            if regs != sorted((p.__name__, n, f.__name__) for (p, n), f in post.ad.items()) or \
+                    subs != sorted((p.__name__, f.__name__) for p, fs in post.su.items() for f in fs):
+                return "after %s() interrupted at %s the registry lists %r / %r, not what was registered" % (mutator, where, regs, subs)
+            for rnd in (1, 2):                             # (ii) after it has returned: what the ledger says, and again
+                for q in Q + ([R] if R not in Q else []):
+                    for key in KEYS:
+                        a, want = ask_key(q, key, ob), post.expect(*key)
+                        stats["lookups"] += 1
+                        if a != want:
+                            seen = [d for dq, dk, d in during if dq is q and dk == key]
+                            return ("after %s() has returned, %s(%s%s) on %s answers %s (ask %d); the registrations say %s; a lookup made at %s "
+                                    "had answered %s and that is still cached" % (
+                                        mutator, key[0], key[1].__name__, key[2] and ", %r" % key[2],
+                                        "the mutated registry" if q is R else "a registry below it", show(a), rnd, show(want), where,
+                                        show(seen[0]) if seen else "<not asked there>"))
+            R.register((IR,), IPA, "", FAC["fA2"])         # (iii) the next mutation is seen everywhere
+            for q in Q:
+                a = q.lookup((IR,), IPA, "")
+                if a is not FAC["fA2"]:
+                    return "after %s() interrupted at %s a later register() is not seen by lookup: %s" % (mutator, where, show(a))
+            return None
+
+        one(None)
+        stats["points"] = P = Pt.count
+        if P == 0:
+            return "FAIL: harness: %s() made no call into the instrumented storage" % mutator
+        for k in range(1, P + 1):
+            if (k + offset) % stride:
+                continue
+            bad = one(k)
+            if bad:
+                return "FAIL: " + bad
+        return "ok points=%(points)d runs=%(runs)d lookups=%(lookups)d partial=%(partial)d" % stats
+
     for line in lines:
         f = line.split()
         scen, flavour, ep = f[0], f[1], f[2] if len(f) > 2 else "lookup"
         got = "ok"
         try:
             ob = Ob()
-            if scen == "stray":
+            if scen == "inmut":
+                got = inmut(flavour, f[2], f[3], f[4], int(f[5]) if len(f) > 5 else 1, int(f[6]) if len(f) > 6 else 0)
+            elif scen == "stray":
                 pool = []
 
                 def hook(kind, lk, compute):
